@@ -111,13 +111,13 @@ func C20(p *core.Program, r *core.Report) {
 			name, re string
 			val      bool // value the atom must have for the return to be taken
 		}{
-			{"matches the unlikely pattern", q(`regexp.Regexp.MatchString(converter.rxUnlikelyCandidates,` + nd + `)`), true},
-			{"does not match the ok-maybe pattern", q(`regexp.Regexp.MatchString(converter.rxOkMaybeItsACandidate,` + nd + `)`), false},
+			{"matches the unlikely pattern", q(`regexp.Regexp.MatchString(` + rxUnlikely + `,` + nd + `)`), true},
+			{"does not match the ok-maybe pattern", q(`regexp.Regexp.MatchString(` + rxOkMaybe + `,` + nd + `)`), false},
 			{"is not below a table", q(`domutil.HasAncestor($1,{"table"})`), false},
 			{"is not body", q(`dom.TagName($1) == "body"`), false},
 			{"is not an anchor", q(`dom.TagName($1) == "a"`), false},
 		}
-		reRole := regexp.MustCompile(q(`in(converter.unlikelyRoles,dom.GetAttribute($1,"role"))`))
+		reRole := regexp.MustCompile(q(`in(` + unlikelyRoleSet + `,dom.GetAttribute($1,"role"))`))
 		cutRole, mr := core.CutAtoms(p, ve, reRole, true)
 		r.Add("F3", "visitor consults the unlikely-role table", p.Pos(ve.Pos()), len(mr) == 1, fmt.Sprintf("%d branches", len(mr)))
 		nFlagReturns := 0
@@ -142,8 +142,8 @@ func C20(p *core.Program, r *core.Report) {
 		}
 		r.Add("F3", "two flag-dependent skips (class/id and role)", p.Pos(ve.Pos()), nFlagReturns == 2, fmt.Sprintf("%d returns depend on the flag", nFlagReturns))
 		// readers of the patterns / role table
-		for _, g := range []string{"rxUnlikelyCandidates", "rxOkMaybeItsACandidate", "unlikelyRoles"} {
-			users := globalReaderFuncs(p, core.ExpandKey(converterPkg), g)
+		for _, g := range []struct{ name, content string }{{"the unlikely-candidates pattern", rxUnlikely}, {"the ok-maybe pattern", rxOkMaybe}, {"the unlikely-roles table", unlikelyRoleSet}} {
+			users := globalReaderFuncs(p, core.ExpandKey(converterPkg), g.content)
 			ok := len(users) >= 1
 			var names []string
 			for _, u := range users {
@@ -152,7 +152,7 @@ func C20(p *core.Program, r *core.Report) {
 					ok = false
 				}
 			}
-			r.Add("F3", "converter."+g+" is read only by the element visitor", "", ok, fmt.Sprintf("readers: %v", names))
+			r.Add("F3", g.name+" is read only by the element visitor", "", ok, fmt.Sprintf("readers: %v", names))
 		}
 	}
 }
@@ -165,17 +165,9 @@ func keys(m map[string]bool) []string {
 	return out
 }
 
-// globalReaders lists module functions (except init) that reference the package-level variable.
-func globalReaders(p *core.Program, pkgPath, name string) []string {
-	var out []string
-	for _, f := range globalReaderFuncs(p, pkgPath, name) {
-		out = append(out, core.ShortKey(f))
-	}
-	return out
-}
-
-// globalReaderFuncs lists module functions (except init) that reference the package-level variable.
-func globalReaderFuncs(p *core.Program, pkgPath, name string) []*ssa.Function {
+// globalReaderFuncs lists module functions (except init) that reference a private package-level
+// variable of the package with the given fixed content (see core.GlobalConst).
+func globalReaderFuncs(p *core.Program, pkgPath, content string) []*ssa.Function {
 	seen := map[*ssa.Function]bool{}
 	var out []*ssa.Function
 	for _, fn := range p.ModFunctions(true) {
@@ -184,9 +176,11 @@ func globalReaderFuncs(p *core.Program, pkgPath, name string) []*ssa.Function {
 		}
 		for _, in := range instrsOf(fn) {
 			for _, op := range in.Operands(nil) {
-				if g, ok := (*op).(*ssa.Global); ok && g.Name() == name && g.Pkg.Pkg.Path() == pkgPath && !seen[fn] {
-					seen[fn] = true
-					out = append(out, fn)
+				if g, ok := (*op).(*ssa.Global); ok && g.Pkg.Pkg.Path() == pkgPath && !seen[fn] {
+					if s, isC := p.GlobalConst(g); isC && s == content {
+						seen[fn] = true
+						out = append(out, fn)
+					}
 				}
 			}
 		}
